@@ -43,8 +43,9 @@ def run(ctx):
                 c.ga[0].replace("&", "").strip() == UT:
             n += 1
             body = c.fn
-            calls_sv = any(cc.name.endswith("UseTree::same_visibility") for cc in body.calls())
-            reads_attrs = any(adt == UT and fld == "attrs" for (adt, var, fld, mode, bb, line) in body.field_accesses())
+            from common import reads_field_transitively, calls_transitively
+            calls_sv = calls_transitively(p, body, "UseTree::same_visibility")
+            reads_attrs = reads_field_transitively(p, body, "imports::UseTree", "attrs")
             ok = full or (calls_sv and reads_attrs)
             r.instance(A, c.key(), "ok" if ok else "violation", c.loc(),
                        "same_visibility=%s attrs read=%s" % (calls_sv, reads_attrs))
@@ -61,8 +62,17 @@ def run(ctx):
     if nz is None:
         r.undecidable(B, "normalize_use_trees_with_granularity not found")
     else:
+        from common import false_answer_implies_false
         cc = [c for c in nz.calls() if c.name.endswith("UseTree::contains_comment")]
         isome = [c for c in nz.calls() if c.name.endswith("Option::<T>::is_some")]
+        # a helper predicate that is false only when both tests are false counts for both
+        for c in nz.calls():
+            h = p.fns.get(c.resolved or "")
+            if h is not None and h.crate == "rustfmt_nightly" and h.locals[0] == "bool" and c not in cc:
+                if false_answer_implies_false(p, h, ["contains_comment(arg1)"]):
+                    cc.append(c)
+                if false_answer_implies_false(p, h, ["is_some(arg1.attrs)"]):
+                    isome.append(c)
         work = [c for c in nz.calls() if c.name.endswith("UseTree::flatten") or c.name.endswith("UseTree::merge")
                 or any(x.endswith("normalize_use_trees_with_granularity::{closure#0}") for x in c.refs)]
         guards = []
